@@ -176,6 +176,27 @@ def chunk_coro(expr, args, ctxdef, shape):
     return pre + cobody + CORO_SHAPES[shape].replace("CTXDEF", ctxdef) + "\nemit('end', runtime.context().flags)\n"
 
 
+OPEN_MODES = ["r", "w", "a", "r+", "w+", "a+", "rb", "wb", "ab", "r+b", "w+b", "a+b"]
+# expressions that would hand the program a NEW handle on something outside (or an iterator over one)
+ACQUIRE = ([('io.open("canary", "%s")' % m) for m in OPEN_MODES] + [('io.open("gvnew", "%s")' % m) for m in OPEN_MODES] +
+           ['io.open("canary")', 'io.input("canary")', 'io.output("canary")', 'io.output("gvnew")', 'io.lines("canary")',
+            'io.lines("canary", "n")', 'io.tmpfile()', 'io.popen("true")', 'io.popen("true", "w")', 'loadfile("canary")',
+            'io.open("/dev/null", "r+")', 'io.open(".", "r")'])
+
+
+def chunk_acquire(expr, ctxdef, form):
+    call = {"direct": "local ok, a, b = true, %s" % expr,
+            "pcall": "local ok, a, b = pcall(function() return %s end)" % expr,
+            "coroutine": "local ok, a, b = coroutine.resume(coroutine.create(function() return %s end))" % expr,
+            "close": "local ok, a, b local h <close> = setmetatable({}, {__close = function() ok, a, b = pcall(function() return %s end) end}) h = nil" % expr}[form]
+    if form == "close":
+        call = "local ok, a, b do local h <close> = setmetatable({}, {__close = function() ok, a, b = pcall(function() return %s end) end}) end" % expr
+    return ("local ctx, x = runtime.callcontext(%s, function()\n %s\n"
+            " emit('acq', runtime.context().flags, ok, io.type(a) or type(a), type(b) == 'string' and b or type(b))\n"
+            " if io.type(a) == 'file' then pcall(a.close, a) end\n return 'fin'\nend)\n"
+            "emit('ctx', tostring(ctx), type(x) == 'string' and x or type(x))\n") % (ctxdef, call)
+
+
 def parse_trace(tr):
     """T: field -> list of events, each a list of python values (strings decoded)."""
     evs = []
@@ -312,6 +333,34 @@ def run(tier, seed):
     ck.cov["registry_rows_not_reached_dynamically"] = sorted({r["go_name"] + " (" + r["lua_name"] + ")" for r in reg
                                                               if (norm_go(r["go_name"]), r["lua_name"]) not in matched})
 
+    # ---------------- 2b. safeio's guard, called directly through the Go API for every flag word
+    rc, glines, se = vlib.run_lines(gvh, ["safeio", sentinel + "-s"], [], timeout=300)
+    nref = nperf = 0
+    sbad = []
+    for gl in glines:
+        g = gl.split(" ")
+        if g[0] != "G" or len(g) < 7:
+            continue
+        req, op, flagw, name, res, changed = int(g[1]), g[2], g[3], g[4], g[5], g[6]
+        ck.case("safeio|" + gl, nontrivial=True)
+        ck.count("safeio:%s:%s" % ("iosafe-required" if req & 4 else "free", res.split(":")[0]))
+        if req & 4:
+            nref += 1
+            if res != "refused" or changed != "0":
+                sbad.append((op, flagw, name, res, changed, req))
+        elif res == "performed":
+            nperf += 1
+    ck.cov["safeio_direct_calls_under_iosafe"] = nref
+    if rc != 0 or nref < 300 or nperf < 50:
+        ck.violation("gvh-flags safeio sweep incomplete (rc %s, %d guarded calls, %d performed without the flag)" % (rc, nref, nperf),
+                     {"kind": "crash", "stderr": se[-2000:]}, no_input=True)
+    for op, flagw, name, res, changed, req in sbad[:4]:
+        ck.violation("safeio.%s(%s, flag word 0x%s = %s) in a context requiring '%s' is not refused: %s%s" %
+                     (op, name, flagw, "|".join(n for n, b in (("O_WRONLY", 1), ("O_RDWR", 2), ("O_CREATE", 0x40), ("O_EXCL", 0x80), ("O_TRUNC", 0x200),
+                                                               ("O_APPEND", 0x400), ("O_SYNC", 0x101000)) if int(flagw, 16) & b == b) or "O_RDONLY",
+                      names(req), res, ", sentinel changed" if changed != "0" else ""),
+                     {"kind": "Go!=S", "engine": "flags", "go_call": "safeio.%s(r, %r, 0x%s, 0644) inside Thread.CallContext{RequiredFlags: %d}" % (op, name, flagw, req),
+                      "result": res, "theorem": "C08_safeio_refuses (for ANY primitive and arguments)"})
     # ---------------- 3. calls under every flag subset
     cases = []
     quick = tier == "quick"
@@ -414,6 +463,16 @@ def run(tier, seed):
                         if d["go"] in DANGEROUS and shape in CORO_KNOWN_SHAPES:
                             continue
                         site_cases.append({"d": d, "F": Feff, "ctxdef": cdef, "family": "coro", "kind": shape, "ti": ti})
+    # acquisition: every mode string io.open accepts (and the other functions that return a handle / iterator / chunk from a
+    # file name) against an EXISTING sentinel file and a new name, inside contexts requiring iosafe
+    acq_cases = []
+    for cdef, F in (('{flags="iosafe"}', 4), ('{flags="memsafe cpusafe iosafe timesafe"}', 15), ('{flags="cpusafe iosafe", kill={cpu=100000000}}', 6),
+                    ('{flags="cpusafe"}', 2)):
+        for k, ex in enumerate(ACQUIRE):
+            forms = ["direct", "pcall", "coroutine", "close"] if (not quick or F == 4) else [("pcall", "coroutine", "close", "direct")[(k + rot) % 4]]
+            for fm in forms:
+                acq_cases.append({"expr": ex, "ctxdef": cdef, "F": F, "form": fm})
+    ck.cov["acquisition_cases"] = len(acq_cases)
     ck.cov["call_site_cases"] = sum(1 for c in site_cases if c["family"] == "site")
     ck.cov["coroutine_shape_cases"] = sum(1 for c in site_cases if c["family"] == "coro")
     # the Go API path (RuntimeContextDef.RequiredFlags through Thread.CallContext) for functions reachable by plain indexing
@@ -440,6 +499,8 @@ def run(tier, seed):
     for i, c in enumerate(site_cases):
         mk = chunk_site if c["family"] == "site" else chunk_coro
         lines.append("k%d %s" % (i, mk(c["d"]["expr"], TUPLES[c["ti"]], c["ctxdef"], c["kind"]).encode().hex()))
+    for i, c in enumerate(acq_cases):
+        lines.append("q%d %s" % (i, chunk_acquire(c["expr"], c["ctxdef"], c["form"]).encode().hex()))
     ck.log("cases: %d via runtime.callcontext, %d via the Go API, %d stress, %d call sites / coroutine shapes" %
            (len(cases), len(api_cases), len(stress_cases), len(site_cases)))
     # the harness process keeps every runtime it created alive (coroutine goroutines), so feed it in slices;
@@ -499,6 +560,47 @@ def run(tier, seed):
     k_gc = next((k for k in ck.known if k.get("status") == "open" and k.get("match", {}).get("family") == "site" and k["match"].get("kind") == "gc"), None)
 
     k_hook = next((k for k in ck.known if k.get("status") == "open" and k.get("match", {}).get("family") == "site" and k["match"].get("kind") == "hook"), None)
+
+    acq_reported = set()
+
+    def eval_acquire(c, l, src):
+        nonlocal nviol
+        F = c["F"]
+        ck.case("acquire|%s|%s|%s" % (c["expr"], c["ctxdef"], c["form"]), nontrivial=True)
+        ck.count("acquire:" + ("iosafe-required" if F & 4 else "not-required"))
+        f = l.split(" ")
+        fields = {x[0]: x[2:] for x in f[2:] if len(x) > 1 and x[1] == ":"}
+        evs = parse_trace(fields.get("T", "-")) if len(f) > 2 else []
+        acq = next((e for e in evs if e and e[0] == "acq"), None)
+        dg = (fields.get("S") or "").split(",children=")
+        fails = []
+        if not (F & 4):
+            if acq and acq[3] in ("file", "function"):
+                ck.count("acquire:handle-obtained-when-not-required")
+            return
+        if len(f) < 2 or f[1] in ("CRASH", "HANG"):
+            fails.append("the harness process %s" % f[1] if len(f) > 1 else "died")
+        elif acq is None:
+            ctx_ev = next((e for e in evs if e and e[0] == "ctx"), None)
+            if not (c["form"] == "direct" and ctx_ev and ctx_ev[1] == "error"):
+                fails.append("the program did not report (status %s)" % f[1])
+        else:
+            if "iosafe" not in (acq[1] or "").split():
+                fails.append("flags in force are '%s'" % acq[1])
+            if acq[3] in ("file", "closed file", "function", "userdata"):
+                fails.append("a handle was obtained: the call returned a %s" % acq[3])
+        if dg[0] and base_digest and dg[0] != base_digest:
+            fails.append("the sentinel directory changed")
+        if len(dg) > 1 and int(dg[1]):
+            fails.append("%s child process(es) started" % dg[1])
+        if fails:
+            nviol += 1
+            key = (c["expr"].split("(")[0], fails[0][:30])
+            if key not in acq_reported and len(acq_reported) < 6:
+                acq_reported.add(key)
+                ck.violation("%s inside runtime.callcontext(%s) (%s call): %s" % (c["expr"], c["ctxdef"], c["form"], "; ".join(fails)),
+                             {"kind": "Go!=S", "engine": "flags", "function": c["expr"], "context_def": c["ctxdef"], "form": "acquire:" + c["form"],
+                              "lua": src, "impl": l[:1500], "failed": fails, "theorem": "C08_safeio_refuses / C08_iosafe_functions_reach_no_sink"})
 
     def eval_site(c, l, src):
         """Predicate: while the body of callcontext(def requiring F) runs - and in every handler that belongs to it -
@@ -573,6 +675,9 @@ def run(tier, seed):
     for i, l in enumerate(outs):
         if i >= len(lines):
             break
+        if i >= len(cases) + len(api_cases) + len(stress_cases) + len(site_cases):
+            eval_acquire(acq_cases[i - len(cases) - len(api_cases) - len(stress_cases) - len(site_cases)], l, bytes.fromhex(lines[i].split(" ")[1]).decode())
+            continue
         if i >= len(cases) + len(api_cases) + len(stress_cases):
             c = site_cases[i - len(cases) - len(api_cases) - len(stress_cases)]
             eval_site(c, l, bytes.fromhex(lines[i].split(" ")[1]).decode())
